@@ -430,12 +430,13 @@ def _pp_hook(v, val):
     from ..core.termeval import ev, Raised
     hooks = [_pp_hook]
     if isinstance(v, T) and v.op in ('call', 'parseaction', 'binop',
-                                     'unop') and v in _PP_CACHE:
+                                     'unop', 'mcall') and v in _PP_CACHE:
         return _PP_CACHE[v]
     r = _pp_build(v, val, pp, ev, Raised, hooks)
-    if r is not NotImplemented and isinstance(v, T) and v.op in (
-            'call', 'parseaction', 'unop') and isinstance(
-                r, pp.ParserElement):
+    if r is not NotImplemented and isinstance(v, T) and (v.op in (
+            'call', 'parseaction', 'unop') or (
+                v.op == 'mcall' and v.args[1] in PP_CONFIGURATORS)) and \
+            isinstance(r, pp.ParserElement):
         _PP_CACHE[v] = r
     return r
 
@@ -474,6 +475,16 @@ def _pp_build(v, val, pp, ev, Raised, hooks):
             return ev(body, v2, hooks)
         base.setParseAction(action)
         return base
+    if isinstance(v, T) and v.op == 'mcall' and \
+            v.args[1] in PP_CONFIGURATORS:
+        # a configuring method changes the element it is called on: applied
+        # to a private deep copy, once (the result is cached), so that the
+        # shared instantiated elements are not configured again and again
+        import copy
+        g = copy.deepcopy(ev(v.args[0], val, hooks))
+        args_ = [ev(a_, val, hooks) for a_ in v.args[2:]]
+        r = getattr(g, v.args[1])(*args_)
+        return g if r is None else r
     if isinstance(v, T) and v.op == 'mcall' and v.args[1] in (
             'parseString', 'parse_string'):
         g = ev(v.args[0], val, hooks)
@@ -488,6 +499,26 @@ def _pp_build(v, val, pp, ev, Raised, hooks):
         except pp.ParseException:
             raise Raised('pyparsing.ParseException')
     return NotImplemented
+
+
+# pyparsing methods that configure the element they are called on (and
+# return it): called as a statement, they change what the grammar accepts
+PP_CONFIGURATORS = (
+    'ignore', 'setName', 'set_name', 'setDebug', 'set_debug',
+    'leaveWhitespace', 'leave_whitespace', 'ignoreWhitespace',
+    'ignore_whitespace', 'setWhitespaceChars', 'set_whitespace_chars',
+    'parseWithTabs', 'parse_with_tabs', 'addCondition', 'add_condition',
+    'setFailAction', 'set_fail_action', 'setBreak', 'set_break',
+    'streamline', 'setDefaultWhitespaceChars')
+
+
+def install_configurators(interp):
+    def make(name):
+        def rebind(i2, base, margs):
+            return T('mcall', base, name, *[i2.termify(a) for a in margs])
+        return rebind
+    for n in PP_CONFIGURATORS:
+        interp.rebind_methods[n] = make(n)
 
 
 def _rebind_parse_action(interp, base, margs):
@@ -537,6 +568,7 @@ def _end_to_end(ctx, keys):
         interp.method_raises['parse_string'] = ['pyparsing.ParseException']
         interp.rebind_methods['setParseAction'] = _rebind_parse_action
         interp.rebind_methods['set_parse_action'] = _rebind_parse_action
+        install_configurators(interp)
         interp.types[value] = 'str'
         interp.types[spec] = 'str'
     specs = []
@@ -566,6 +598,11 @@ def _end_to_end(ctx, keys):
               # negative and decimal range limits
               '<range-in> [ -20 -10 ]', '<range-in> ( -5 5 ]',
               '<range-in> [ -1.5 4.5 )', '<range-in> [ 4 +6 ]',
+              # negative numbers of equal width, numbers of different
+              # width, operands that start like a comment
+              '>= -3', '<= -3', '= -5', '> -9', '< -3', '>= 10', '<= 9',
+              '-3', 's== #1', '<in> #b', '<or> a <or> #b', '<all-in> #x y',
+              '#abc', 's!= #', '>= 1#',
               # white space before / after / inside
               ' >= 5', '  <or> a <or> b', ' s== abc', '\t<in> bc', '>= 5 ',
               ' <range-in> [ 1 5 ] ', '<or>  a  <or>  b', ' <all-in> aes']
@@ -574,7 +611,9 @@ def _end_to_end(ctx, keys):
               '-15', '-5', '4.5', '-20', 'caf\u00e9', 'caf', '0', '0.0',
               '-0.0', 'gcc-4x8', 'a+b', 'f(x)', 'abc', 'aac', 'a|b', '[a]',
               'abc,', 'a,', "['aes,', 'mmx']",
-              "['a\u00e9s', 'mmx']", '\u00e9t\u00e9')
+              "['a\u00e9s', 'mmx']", '\u00e9t\u00e9',
+              '-3', '-9', '-2', '10', '9', '#1', '#b', 'a#b', "['#x', 'y']",
+              '#abc', '#')
 
     if ctx.thorough:
         operands = ('-1', '0', '4', '6', '5.0', '4.99', '5.01', '1e1', 'abc',
